@@ -81,7 +81,7 @@ Guard(st, e) ==
                                       /\ TakeNotFailed(st, e)
       [] e.ev = "onclose" -> TRUE
       [] e.ev = "quiesce" -> /\ (C04(st) => QuiesceAll(st, e))
-                             /\ (C01(st) /\ e.queued = 0 => QuiesceAll(st, e))
+                             /\ (C01(st) => QuiesceAll(st, e))
                              /\ (C17(st) => OverflowCloses(st, e))
       [] e.ev = "panic" -> FALSE
       [] e.ev = "stuck" -> FALSE
@@ -107,9 +107,14 @@ Effect(st, e) ==
                                                            THEN @ \cup {p \in st.pred[e.sid] :
                                                                            ~Returned(st, p) /\ st.del[p] < st.size[p]}
                                                            ELSE @,
-                                           !.takenBuf = IF st.isbuf[e.sid] THEN @ + (e.hi - e.lo) ELSE @,
-                                           !.dk = IF e.sid \in st.incall THEN Fn(@, e.sid, @[e.sid] + (e.hi - e.lo)) ELSE @]
+                                           !.takenBuf = IF st.isbuf[e.sid] /\ ~e.peer THEN @ + (e.hi - e.lo) ELSE @,
+                                           !.dk = IF e.sid \in st.incall /\ ~e.peer
+                                                    THEN Fn(@, e.sid, @[e.sid] + (e.hi - e.lo)) ELSE @]
       [] e.ev = "onclose" -> [st EXCEPT !.closed = TRUE]
+      \* real-socket runs of C17: the syscall recorder reports how many bytes of in-memory calls the
+      \* kernel accepted (contents are only seen by the peer, later)
+      [] e.ev = "ktaken" -> [st EXCEPT !.takenBuf = @ + e.n,
+                                       !.dk = [s \in DOMAIN @ |-> IF s \in st.incall THEN @[s] + e.n ELSE @[s]]]
       [] OTHER -> st
 
 Why(st, e) ==
